@@ -20,6 +20,51 @@ def _r(rng, lo, hi, nd=3):
     return float(np.round(rng.uniform(lo, hi), nd))
 
 
+_RESERVED = {"log", "exp", "sqrt", "abs", "min", "max", "maximum", "minimum", "logistic", "if", "for", "do", "end", "ttrend", "nan", "inf"}
+
+
+def _apply_names(obj, mapping):
+    """replace whole-string occurrences of the mapped names anywhere in a nested structure (values and dict keys)"""
+    if isinstance(obj, str):
+        return mapping.get(obj, obj)
+    if isinstance(obj, dict):
+        return {(mapping.get(k, k) if isinstance(k, str) else k): _apply_names(v, mapping) for k, v in obj.items()}
+    if isinstance(obj, list):
+        return [_apply_names(v, mapping) for v in obj]
+    if isinstance(obj, tuple):
+        return tuple(_apply_names(v, mapping) for v in obj)
+    return obj
+
+
+def rename_quantities(rng, spec, *others, prob=0.5):
+    """Variables and shocks get names of different lengths, cases and prefixes (one name may be a prefix of another),
+    so that the declaration order, the alphabetical order and the order by length all differ. Parameters keep their names.
+    Added after a seeded change that paired anticipated shocks with impact columns by name length."""
+    groups = [spec["tvars"], spec["mvars"], spec["tshocks"], spec["mshocks"]]
+    old = [q["name"] for g in groups for q in g]
+    taken = set(old) | {q["name"] for q in spec["params"]} | {q["name"] for q in spec.get("exog", [])}
+    mapping = {}
+    for nm in old:
+        if rng.random() >= prob:
+            continue
+        style = int(rng.integers(0, 4))
+        if style == 0:
+            new = nm + "_" + "".join(rng.choice(list("abcxyz"), size=int(rng.integers(1, 9))))
+        elif style == 1:
+            new = "".join(rng.choice(list("bcdfgh"), size=int(rng.integers(1, 6)))) + "_" + nm
+        elif style == 2 and mapping:
+            new = str(rng.choice(sorted(mapping.values()))) + str(rng.choice(list("xyzq7")))
+        else:
+            new = nm.upper()
+        if new in taken or new.lower() in _RESERVED:
+            continue
+        taken.add(new)
+        mapping[nm] = new
+    if not mapping:
+        return (spec,) + others
+    return tuple(_apply_names(o, mapping) for o in (spec,) + others)
+
+
 def family_L(rng, n=None, max_lag=3, max_lead=2, measurement=None, unit_root=False, coupling=0.2, forward_share=0.4, const=True, persistent=False):
     n = int(rng.integers(1, 6)) if n is None else n
     names = [f"x{i}" for i in range(n)]
@@ -99,6 +144,7 @@ def family_L(rng, n=None, max_lag=3, max_lead=2, measurement=None, unit_root=Fal
                 if other != f"w{j}":
                     terms.append(E.bin_("*", E.num(_r(rng, 0.3, 1.2, 2)), E.var(other, 0)))
             spec["meqs"].append({"lhs": E.var(f"ob{j}", 0), "rhs": E.add_all(terms), "steady": None, "desc": "", "eqsign": "="})
+    spec, meta = rename_quantities(rng, spec, meta)
     return spec, meta
 
 
@@ -227,6 +273,7 @@ def family_N(rng, n=None, max_lag=2, max_lead=2, measurement=None, forward_share
         if spec["mvars"][j]["log"] and val <= 0:
             return None, None, None
     meta["xbar"] = xbar
+    spec, steady, meta = rename_quantities(rng, spec, steady, meta)
     return spec, steady, meta
 
 
